@@ -430,6 +430,51 @@ Connect(c, paths) == [State0(c) EXCEPT !.conn = [b \in DOMAIN @ |-> IF b \in DOM
                                        !.addr = [b \in DOMAIN @ |-> IF b \in DOMAIN paths THEN paths[b] ELSE <<>>]]
 StartState(c, paths) == ApplyCmds(c, Connect(c, paths), InitialCmds(c), <<>>)
 
+(* --------------------------------------------------- node table at startup (C15) *)
+(* tree: Seq([p: node address, uid]) - the nodes present on the bus.  A node is found by the enumeration iff the
+   interface <<>> answers and every proper non-empty prefix of its address is an interface-class node of the tree. *)
+NodeAt(tree, p) == LET S == {i \in DOMAIN tree : tree[i].p = p} IN IF S = {} THEN 0 ELSE MinOf(S)
+Reachable(tree, p) == /\ NodeAt(tree, <<>>) # 0
+                      /\ \A k \in 1..(Len(p) - 1) : LET i == NodeAt(tree, SubSeq(p, 1, k)) IN i # 0 /\ Bit(tree[i].uid[1], 7) = 1
+PathsOf(c, tree) ==
+    LET found(b) == {i \in DOMAIN tree : tree[i].uid = Uid(c, b) /\ Reachable(tree, tree[i].p)}
+        B == {b \in BoardIds(c) : found(b) # {}}
+    IN [b \in B |-> tree[MinOf(found(b))].p]
+
+(* --------------------------------------------- start-up transcript (C20) *)
+(* ms: the decoded downlink messages [addr, seq, ty, data] of one start (from the system reset on), in wire order. *)
+IdxOf(ms, T(_)) == {i \in DOMAIN ms : T(ms[i])}
+(* index sets of a transcript, computed once (TLC re-evaluates LET definitions inside quantifiers, so the trace
+   specification stores this record in a variable before checking BootOk) *)
+BootInfo(c, paths, ms, ini) ==
+    [fs |-> IdxOf(ms, LAMBDA m : m.ty = MSG_FEATURE_SET),
+     en |-> IdxOf(ms, LAMBDA m : m.ty = MSG_SYS_ENABLE),
+     go |-> IdxOf(ms, LAMBDA m : m.ty = MSG_CS_SET_STATE /\ m.data = <<3>>),
+     want |-> UNION {{<<paths[b], f.num, f.val>> : f \in RangeS(BoardRec(c, b).features)} : b \in DOMAIN paths},
+     ini |-> {i \in DOMAIN ms : \E j \in DOMAIN ini : ini[j].n = ms[i].addr /\ ini[j].ty = ms[i].ty /\ ini[j].data = ms[i].data},
+     tos |-> {paths[b] : b \in {x \in DOMAIN paths : IsTrackOutput(c, x)}},
+     addrs |-> {paths[b] : b \in DOMAIN paths}]
+
+(* bi = BootInfo(c, paths, ms, ini); ini = StartState(c, paths).out: what the initial values have to submit (C09 encoding) *)
+BootOk(ms, ini, bi) ==
+    /\ Cardinality(bi.en) = 1
+    (* each configured feature to its own board, once, to nobody else, before the enable *)
+    /\ \A i \in bi.fs : Len(ms[i].data) = 2 /\ <<ms[i].addr, ms[i].data[1], ms[i].data[2]>> \in bi.want /\ \A e \in bi.en : i < e
+    /\ \A w \in bi.want : Cardinality({i \in bi.fs : <<ms[i].addr, ms[i].data[1], ms[i].data[2]>> = w}) = 1
+    (* every connected track output is switched on after the enable, nobody else *)
+    /\ \A i \in bi.go : ms[i].addr \in bi.tos /\ \A e \in bi.en : e < i
+    /\ \A a \in bi.tos : Cardinality({i \in bi.go : ms[i].addr = a}) = 1
+    (* every initial value exactly as often as configured, after the track outputs were switched on *)
+    /\ \A j \in DOMAIN ini : Cardinality({i \in bi.ini : ms[i].addr = ini[j].n /\ ms[i].ty = ini[j].ty /\ ms[i].data = ini[j].data})
+                             = Cardinality({k \in DOMAIN ini : ini[k] = ini[j]})
+    /\ \A i \in bi.ini : \A g \in bi.go : g < i
+    (* accessory / port / drive commands occur only as initial values (nothing else is commanded) *)
+    /\ \A i \in DOMAIN ms : ms[i].ty \in {MSG_ACCESSORY_SET, MSG_LC_OUTPUT, MSG_CS_ACCESSORY} => i \in bi.ini
+    /\ \A i \in DOMAIN ms : ms[i].ty = MSG_CS_DRIVE /\ ms[i].data[4] # 0 => i \in bi.ini
+    (* nothing is commanded for a board that is not connected *)
+    /\ \A i \in DOMAIN ms : ms[i].ty \in {MSG_FEATURE_SET, MSG_CS_SET_STATE, MSG_CS_DRIVE, MSG_ACCESSORY_SET, MSG_LC_OUTPUT, MSG_CS_ACCESSORY,
+                                         MSG_BM_GET_RANGE, MSG_BM_ADDR_GET_RANGE} => ms[i].addr \in bi.addrs
+
 (* ------------------------------------------------- properties of a state *)
 (* C08 *)
 TrainAgreesWithSegments(c, ts) ==
